@@ -168,3 +168,67 @@ def edit_cmd(r):
     if k < 0.92:
         return "v" + motion(r) + r.choice(["d", "y", "~", "U"])
     return ":" + r.choice(["s/a/X/", "s/o/0/g", "%s/b/B/g", "d", "1d", "$d"]) + "<CR>"
+
+
+# ---------------------------------------------------------------------------- flag programs
+
+PATTERNS = ["foo", "o", "a", "bar|baz", "[0-9]+", "^h", "x$", "zzz", "\\d", "b.r", "é", "E"]
+
+
+def flag_items(r, n=None, depth=0, edits=True, repeat=True, glob=True, names=True):
+    """A list of command-flag items:
+       ("c", name|None, keys) ("m", keys) ("n",) ("r", N, R) ("g", pol, pattern, then_items, else_items|None)"""
+    items = []
+    n = n if n is not None else r.randint(1, 5)
+    for _ in range(n):
+        k = r.random()
+        if k < 0.4:
+            name = r.choice(["user", "id", "k"]) if (names and r.random() < 0.2) else None
+            items.append(("c", name, passive_cmd(r)))
+        elif k < 0.7:
+            items.append(("m", edit_cmd(r) if (edits and r.random() < 0.5) else passive_cmd(r)))
+        elif k < 0.8:
+            items.append(("n",))
+        elif k < 0.9 and repeat and items:
+            items.append(("r", r.randint(1, min(3, len(items))), r.randint(0, 2)))
+        elif glob and depth < 2:
+            then = flag_items(r, r.randint(1, 3), depth + 1, edits, repeat, glob, names)
+            els = flag_items(r, r.randint(1, 2), depth + 1, edits, repeat, glob, names) if r.random() < 0.3 else None
+            items.append(("g", r.random() < 0.7, r.choice(PATTERNS), then, els))
+        else:
+            items.append(("m", passive_cmd(r)))
+    return items
+
+
+def items_argv(items, long=False):
+    av = []
+    for it in items:
+        t = it[0]
+        if t == "c":
+            av.append("--cut" if long else "-c")
+            if it[1] is not None:
+                av.append("name=" + it[1])
+            av.append(it[2])
+        elif t == "m":
+            av += ["--move" if long else "-m", it[1]]
+        elif t == "n":
+            av.append("--next" if long else "-n")
+        elif t == "r":
+            av += ["--repeat" if long else "-r", str(it[1]), str(it[2])]
+        elif t == "g":
+            if it[1]:
+                av.append("--global" if long else "-g")
+            else:
+                av.append("--not-global" if long else "-v")
+            av.append(it[2])
+            av += items_argv(it[3], long)
+            if it[4] is not None:
+                av.append("--else")
+                av += items_argv(it[4], long)
+            av.append("--end")
+    return av
+
+
+def arg_safe(s):
+    """vicut refuses operands starting with '-' and treats bare words as file names."""
+    return not s.startswith("-")
